@@ -1,5 +1,5 @@
-import MJ.Proofs.CmpNum
-import MJ.Proofs.CmpNumEq
+import MJ.Proofs.CmpNumFloatEq
+import MJ.Proofs.CmpMap
 import MJ.Proofs.CmpF64Order
 import MJ.Proofs.CollGroup
 import MJ.Proofs.CollRuns
@@ -18,38 +18,49 @@ open MJ MJ.Val MJ.Cmp MJ.F64 MJ.CmpKey MJ.CmpNum MJ.CmpEq MJ.Coll Std
 
 /-! ## the order -/
 
-/-- no float anywhere inside the value -/
-abbrev NoFloat (v : V) : Prop := AllNum (fun n => n.isFloat = false) v
+/-- every number inside the value is within the range of its Rust representation
+    (`u64`/`i64`/`u128`/`i128`; a float is any 64-bit pattern, NaNs and infinities included) -/
+abbrev InRange (v : V) : Prop := AllNum N.WF v
 
-/-- `Value::cmp` is `compare` on the explicit key (stage 1: values without floats) -/
-theorem cmp_refines_key_nofloat (a b : V) (ha : NoFloat a) (hb : NoFloat b) :
+/-- `Value::cmp` is `compare` on the explicit, linearly ordered key — for all values: integers of
+    every width, floats (compared exactly against integers, also beyond 2^53), strings, bytes,
+    sequences, tuples, iterables, maps, plain objects and nestings thereof -/
+theorem cmp_refines_key (a b : V) (ha : InRange a) (hb : InRange b) :
     cmpV a b = cmpK (key a) (key b) :=
-  cmpV_eq_cmpK numSpec_int a b ha hb
+  cmpV_eq_cmpK numSpec_wf a b ha hb
 
-example : NoFloat (.seq [.num (.i64 (-1)), .map [(.str [97], .num (.u128 5))], .bool true]) := by
-  simp [AllNum, AllNumL, AllNumPL, N.isFloat]
+/-- the hypothesis is satisfiable by a non-trivial value: a list with `-1`, a map whose value is
+    `u128::MAX`, `true`, the float `2^63` and a NaN -/
+example : InRange (.seq [.num (.i64 (-1)), .map [(.str [97], .num (.u128 340282366920938463463374607431768211455))],
+    .bool true, .num (.f64 0x43e0000000000000), .num (.f64 0x7ff8000000000000)]) := by
+  simp [AllNum, AllNumL, AllNumPL, N.WF, i64Min, i64Max, u128Max, P64]
 
-theorem cmp_refl_nofloat (a : V) (ha : NoFloat a) : cmpV a a = .eq := by
-  rw [cmp_refines_key_nofloat a a ha ha]; exact ReflCmp.compare_self
+theorem cmp_refl (a : V) (ha : InRange a) : cmpV a a = .eq := by
+  rw [cmp_refines_key a a ha ha]; exact ReflCmp.compare_self
 
-theorem cmp_antisymm_nofloat (a b : V) (ha : NoFloat a) (hb : NoFloat b) :
+theorem cmp_antisymm (a b : V) (ha : InRange a) (hb : InRange b) :
     cmpV b a = (cmpV a b).swap := by
-  rw [cmp_refines_key_nofloat a b ha hb, cmp_refines_key_nofloat b a hb ha]
+  rw [cmp_refines_key a b ha hb, cmp_refines_key b a hb ha]
   exact OrientedCmp.eq_swap
 
-theorem cmp_trans_nofloat (a b c : V) (ha : NoFloat a) (hb : NoFloat b) (hc : NoFloat c)
+theorem cmp_trans (a b c : V) (ha : InRange a) (hb : InRange b) (hc : InRange c)
     (h1 : cmpV a b ≠ .gt) (h2 : cmpV b c ≠ .gt) : cmpV a c ≠ .gt := by
-  rw [cmp_refines_key_nofloat _ _ ha hb] at h1
-  rw [cmp_refines_key_nofloat _ _ hb hc] at h2
-  rw [cmp_refines_key_nofloat _ _ ha hc]
+  rw [cmp_refines_key _ _ ha hb] at h1
+  rw [cmp_refines_key _ _ hb hc] at h2
+  rw [cmp_refines_key _ _ ha hc]
   exact Ordering.ne_gt_iff_isLE.mpr
     (TransCmp.isLE_trans (Ordering.ne_gt_iff_isLE.mp h1) (Ordering.ne_gt_iff_isLE.mp h2))
 
+/-- any two values are comparable: `a ≤ b` or `b ≤ a` -/
+theorem cmp_total (a b : V) (ha : InRange a) (hb : InRange b) : cmpV a b ≠ .gt ∨ cmpV b a ≠ .gt := by
+  rw [cmp_antisymm a b ha hb]
+  cases cmpV a b <;> simp
+
 /-- equal-by-order is a congruence for the order: `a ≡ b → cmp a c = cmp b c` -/
-theorem cmp_congr_nofloat (a b c : V) (ha : NoFloat a) (hb : NoFloat b) (hc : NoFloat c)
+theorem cmp_congr (a b c : V) (ha : InRange a) (hb : InRange b) (hc : InRange c)
     (h : cmpV a b = .eq) : cmpV a c = cmpV b c := by
-  rw [cmp_refines_key_nofloat _ _ ha hb] at h
-  rw [cmp_refines_key_nofloat _ _ ha hc, cmp_refines_key_nofloat _ _ hb hc]
+  rw [cmp_refines_key _ _ ha hb] at h
+  rw [cmp_refines_key _ _ ha hc, cmp_refines_key _ _ hb hc]
   exact TransCmp.congr_left h
 
 /-- the comparison is defined for every pair: whenever two values land in the same kind slot they
@@ -58,23 +69,27 @@ theorem cmp_congr_nofloat (a b c : V) (ha : NoFloat a) (hb : NoFloat b) (hc : No
 theorem cmp_no_unreachable (a b : V) (h : a.rank = b.rank) : cls a = cls b :=
   cls_eq_of_rank_eq h
 
-/-- the float/float part is exact on bit patterns (all patterns, incl. ±0, ±inf, NaN) -/
-theorem cmp_f64_refines_key (x y : Nat) : cmpF64 x y = compare (F64.key x) (F64.key y) :=
-  cmpF64_eq x y
+/-- the numeric part is exact: numbers of all five representations are ordered by their exact
+    values (`numKey` = value · 2^1074; ±0 identified, NaNs beyond the infinities in `total_cmp`
+    order), in particular `cmp_f64_i128` / `cmp_f64_u128` never lose precision -/
+theorem cmp_num_exact (x y : N) (hx : x.WF) (hy : y.WF) : cmpN x y = compare (numKey x) (numKey y) :=
+  numSpec_wf x y hx hy
+
+example : cmpN (.i64 9007199254740993) (.f64 0x4340000000000000) = .gt := by decide +kernel
 
 /-! ## `==`, the order and the hash agree -/
 
-/-- every number inside is an integer within the range of its Rust representation -/
-abbrev IntOnly (v : V) : Prop := AllNum IntWF v
+/-- every number inside is within the range of its representation and no float is a NaN -/
+abbrev NoNaN (v : V) : Prop := AllNum NumOK v
 /-- every map inside holds its keys in strictly increasing order (a `BTreeMap`'s iteration order) -/
 abbrev SortedMaps (v : V) : Prop := allV mapSorted v = true
 
-theorem numSpec_intWF : NumSpec IntWF := fun x y hx hy => numSpec_int x y hx.1 hy.1
+theorem numSpec_ok : NumSpec NumOK := fun x y hx hy => numSpec_wf x y hx.1 hy.1
 
-/-- Full-strength statement (stage 1: numbers are integers): `==` holds exactly when the order says
-    `Equal`, and `==` values feed the hasher the same items. -/
+/-- Full-strength statement: `==` holds exactly when the order says `Equal` (NaN aside), and `==`
+    values feed the hasher the same items. -/
 def C07_full : Prop :=
-  ∀ a b : V, IntOnly a → IntOnly b → SortedMaps a → SortedMaps b →
+  ∀ a b : V, NoNaN a → NoNaN b → SortedMaps a → SortedMaps b →
     (eqV .btree a b = true ↔ cmpV a b = .eq) ∧ (eqV .btree a b = true → hkey a = hkey b)
 
 /-- The full statement is false on the current code: `true == 1`, yet `cmp(true, 1) = Less` and the
@@ -83,7 +98,7 @@ def C07_full : Prop :=
 theorem C07_counterexample : ¬ C07_full := by
   intro h
   have h1 := h (.bool true) (.num (.i64 1))
-    (by simp [AllNum]) (by simp [AllNum, IntWF, N.isFloat, N.WF, i64Min, i64Max])
+    (by simp [AllNum]) (by simp [AllNum, NumOK, N.WF, i64Min, i64Max])
     (by decide) (by decide)
   have he : eqV .btree (.bool true) (.num (.i64 1)) = true := by
     rw [eqV]; decide
@@ -93,29 +108,37 @@ theorem C07_counterexample : ¬ C07_full := by
 
 /-- … and true outside the excluded region (`noClash`: no bool inside one value facing a number
     inside the other) -/
-theorem C07_partial (a b : V) (ha : IntOnly a) (hb : IntOnly b) (sa : SortedMaps a) (sb : SortedMaps b)
+theorem C07_partial (a b : V) (ha : NoNaN a) (hb : NoNaN b) (sa : SortedMaps a) (sb : SortedMaps b)
     (hc : noClash a b = true) :
     (eqV .btree a b = true ↔ cmpV a b = .eq) ∧ (eqV .btree a b = true → hkey a = hkey b) :=
-  eq_main numSpec_intWF eqSpec_int hashSpec_int _ a b rfl ⟨ha, hb, sa, sb, hc⟩
+  eq_main numSpec_ok eqSpec_ok hashSpec_ok _ a b rfl ⟨ha, hb, sa, sb, hc⟩
 
-/-- `a == b` exactly when `a.cmp(b) == Equal` -/
-theorem eq_iff_cmp_eq_nofloat (a b : V) (ha : IntOnly a) (hb : IntOnly b) (sa : SortedMaps a)
+/-- `a == b` exactly when `a.cmp(b) == Equal` (NaN aside) -/
+theorem eq_iff_cmp_eq (a b : V) (ha : NoNaN a) (hb : NoNaN b) (sa : SortedMaps a)
     (sb : SortedMaps b) (hc : noClash a b = true) : eqV .btree a b = true ↔ cmpV a b = .eq :=
   (C07_partial a b ha hb sa sb hc).1
 
 /-- equal values hash identically: the same items are fed to the hasher -/
-theorem eq_hash_nofloat (a b : V) (ha : IntOnly a) (hb : IntOnly b) (sa : SortedMaps a)
+theorem eq_hash (a b : V) (ha : NoNaN a) (hb : NoNaN b) (sa : SortedMaps a)
     (sb : SortedMaps b) (hc : noClash a b = true) (he : eqV .btree a b = true) : hkey a = hkey b :=
   (C07_partial a b ha hb sa sb hc).2 he
 
 /-- the hypotheses are satisfiable by a non-trivial pair: a list holding a map with two keys, a
-    `u64` facing an `i128`, and a nested tuple -/
+    `u64` facing a float, `2^64` as `u128` facing the float `2^64`, and a nested tuple -/
 example :
-    let a : V := .seq [.map [(.str [97], .num (.u64 1)), (.str [98], .tuple [.none])], .num (.i64 (-3))]
-    let b : V := .iter [.map [(.str [97], .num (.i128 1)), (.str [98], .tuple [.none])], .num (.i128 (-3))]
-    IntOnly a ∧ IntOnly b ∧ SortedMaps a ∧ SortedMaps b ∧ noClash a b = true := by
-  refine ⟨?_, ?_, by decide, by decide, by decide⟩ <;>
-    simp [AllNum, AllNumL, AllNumPL, IntWF, N.isFloat, N.WF, i64Min, i64Max, u64Max, i128Min, i128Max]
+    let a : V := .seq [.map [(.str [97], .num (.u64 1)), (.str [98], .tuple [.none])],
+      .num (.u128 18446744073709551616)]
+    let b : V := .iter [.map [(.str [97], .num (.f64 0x3ff0000000000000)), (.str [98], .tuple [.none])],
+      .num (.f64 0x43f0000000000000)]
+    NoNaN a ∧ NoNaN b ∧ SortedMaps a ∧ SortedMaps b ∧ noClash a b = true ∧ cmpV a b = .eq := by
+  refine ⟨?_, ?_, by decide +kernel, by decide +kernel, by decide +kernel, by decide +kernel⟩ <;>
+    simp [AllNum, AllNumL, AllNumPL, NumOK, N.WF, u64Max, u128Max, P64] <;> decide
+
+/-- the `SortedMaps` hypothesis is what insertion into a `BTreeMap` establishes: a map built from
+    any list of pairs (keys within range) holds its keys in strictly increasing order -/
+theorem map_from_pairs_sorted (ps : List (V × V)) (h : ∀ p ∈ ps, InRange p.1) :
+    ∃ qs, mkMap .btree ps = .map qs ∧ (qs.map (·.1)).Pairwise (fun a b => cmpV a b = .lt) :=
+  mkMap_btree_sorted ps h
 
 /-! ## the collection filters, for every input list and every total preorder `cmp` -/
 
